@@ -25,6 +25,7 @@ pywbem client without requiring a running WBEM server.
 For documentation, see mocksupport.rst.
 """
 
+from copy import deepcopy
 import os
 import time
 import re
@@ -922,7 +923,8 @@ class FakedWBEMConnection(WBEMConnection):
             else:
                 obj = objects
                 if isinstance(obj, CIMClass):
-                    cc = obj.copy()
+                    # Deep copy: resolving the class modifies its elements
+                    cc = deepcopy(obj)
                     if cc.superclass:
                         if not self._mainprovider.class_exists(
                                 namespace, cc.superclass):
